@@ -107,7 +107,8 @@ func (e *routesEngine) generate(r *rng, n int, tier string, emit func(string)) {
 				call1("nth", vc(1, 2), 7),                                // failing builtin
 				sy("undefined-symbol-zz"),                                // unbound symbol
 				call1("throw", HashMap{Val: map[string]MalType{kw("code"): 7}}),
-			}[r.intn(5)]
+				call1("throw", nil), call1("throw", false), call1("throw", ls()),
+			}[r.intn(8)]
 			forms = append(forms, ls(sy("def"), sy("caught"), ls(sy("try"), bad, ls(sy("catch"), sy("e"), call1("str", sy("e"))))))
 			names = append(names, "caught")
 		}
